@@ -4,34 +4,38 @@ import (
 	"go/ast"
 	"go/parser"
 	"go/token"
+	"io/fs"
 	"path/filepath"
+	"sort"
 	"strings"
 )
 
-// factFiles are the anchored files whose call structure the hand-written models rely on.
-var factFiles = []string{
-	"quorum.go",
-	"core/replica.go",
-	"core/eventloop/queue.go",
-	"core/eventloop/eventloop.go",
-	"security/cert/auth.go",
-	"security/cert/cache.go",
-	"security/blockchain/blockchain.go",
-	"security/crypto/ecdsa.go",
-	"security/crypto/eddsa.go",
-	"security/crypto/bls12.go",
-	"protocol/synchronizer/timeout_collector.go",
-	"protocol/synchronizer/synchronizer.go",
-	"protocol/synchronizer/timeoutrule_simple.go",
-	"protocol/synchronizer/timeoutrule_aggregate.go",
-	"protocol/votingmachine/votingmachine.go",
-	"protocol/comm/kauri.go",
-	"protocol/consensus/voter.go",
-	"protocol/consensus/committer.go",
-	"protocol/consensus/proposer.go",
-	"internal/proto/clientpb/cmdcache.go",
-	"server/clientio.go",
-	"server/server.go",
+// factFiles: every non-test, non-generated Go file of the repository (relative paths).
+func factFiles(repo string) []string {
+	var out []string
+	filepath.WalkDir(repo, func(p string, d fs.DirEntry, err error) error {
+		if err != nil {
+			return nil
+		}
+		if d.IsDir() {
+			if n := d.Name(); n == ".git" || n == "node_modules" {
+				return filepath.SkipDir
+			}
+			return nil
+		}
+		n := d.Name()
+		if !strings.HasSuffix(n, ".go") || strings.HasSuffix(n, "_test.go") || strings.HasSuffix(n, ".pb.go") {
+			return nil
+		}
+		rel, _ := filepath.Rel(repo, p)
+		if strings.HasPrefix(rel, "internal/verifharness") {
+			return nil
+		}
+		out = append(out, rel)
+		return nil
+	})
+	sort.Strings(out)
+	return out
 }
 
 // extractFacts returns, per "file:Recv.Func", the ordered list of called selector/function names
@@ -40,7 +44,7 @@ var factFiles = []string{
 // which order; anything else may change freely.
 func extractFacts(repo string) map[string][]string {
 	out := map[string][]string{}
-	for _, rel := range factFiles {
+	for _, rel := range factFiles(repo) {
 		fset := token.NewFileSet()
 		f, err := parser.ParseFile(fset, filepath.Join(repo, rel), nil, 0)
 		if err != nil {
